@@ -60,6 +60,17 @@ type c03Block struct {
 	Seed uint64 `json:"seed"`
 	Size int    `json:"size"`
 	Hint bool   `json:"hint"`
+	// Pattern: content is a random 8 KiB chunk repeated (large blocks are
+	// too expensive to draw byte by byte under the race detector)
+	Pattern bool `json:"pattern,omitempty"`
+}
+
+func c03BlockData(bs c03Block) []byte {
+	if !bs.Pattern {
+		return verifkit.NewRand(bs.Seed).Bytes(bs.Size)
+	}
+	chunk := verifkit.NewRand(bs.Seed).Bytes(8192)
+	return append([]byte(nil), bytes.Repeat(chunk, bs.Size/8192+1)[:bs.Size]...)
 }
 
 type c03FileOp struct {
@@ -73,6 +84,7 @@ type c03Reader struct {
 	Kind  string      `json:"kind"` // get-read get-copy get-writeto get-readall get-early readat file
 	Blk   int         `json:"blk,omitempty"`
 	RSeed uint64      `json:"rseed,omitempty"`
+	Limit *int        `json:"limit,omitempty"` // get-early: stop after exactly this many bytes, then Close
 	Off   int         `json:"off,omitempty"`
 	Len   int         `json:"len,omitempty"`
 	File  string      `json:"file,omitempty"`
@@ -123,10 +135,29 @@ type c03Wire struct {
 	head   string // raw: everything before the body
 	body   []byte // std/chunked: body; raw: bytes following head
 	pieces int
+	tail   int // junk bytes streamed after body (never materialised)
 	rst    bool
 	is200  bool // a 200 response whose header certainly reaches the client
 	good   bool // framed content == block and complete
 	class  string
+}
+
+// c03Junk is what over-long tails are made of.
+var c03Junk = verifkit.NewRand(0xc03c03).Bytes(65536)
+
+// c03WriteTail streams n junk bytes; it stops at the first write error (the
+// client is entitled to hang up on an over-long answer).
+func c03WriteTail(w io.Writer, n int) {
+	for n > 0 {
+		k := len(c03Junk)
+		if k > n {
+			k = n
+		}
+		if _, err := w.Write(c03Junk[:k]); err != nil {
+			return
+		}
+		n -= k
+	}
 }
 
 func c03Head(cl int64, extra string) string {
@@ -248,6 +279,31 @@ func c03Resolve(st c03Step, blk []byte) c03Wire {
 		}
 	case "long":
 		w.body = c03Long(blk, c03P(st, 0, 0), c03P(st, 1, 1), c03P(st, 2, 1))
+	case "bigtail":
+		// the block-sized head (intact, bit-flipped, or other bytes of the
+		// same size) followed by a junk tail large enough to matter to
+		// whoever has to drain it. P = framing, head variant, tail, bit
+		switch c03P(st, 1, 0) {
+		case 1:
+			w.body = c03Flip(blk, []int{c03P(st, 3, 0)})
+		case 2:
+			w.body = verifkit.NewRand(uint64(c03P(st, 3, 0)) + 99).Bytes(n)
+			if n > 0 {
+				w.body[0] = blk[0] ^ 0x10
+			}
+		default:
+			w.body = blk
+		}
+		w.tail = c03P(st, 2, 1)
+		if w.tail < 1 {
+			w.tail = 1
+		}
+		switch c03P(st, 0, 0) {
+		case 0:
+			w.mode, w.pieces = c03Chunked, 1
+		case 1:
+			w.mode, w.head = c03Raw, c03Head(-1, "")
+		}
 	case "declong": // declared length longer than what is sent, then close
 		sent := c03Clamp(c03P(st, 1, n), 0, n)
 		decl := c03P(st, 0, n)
@@ -390,9 +446,11 @@ func (p *c03Pool) serve(svc int, w http.ResponseWriter, r *http.Request) {
 
 	switch wire.mode {
 	case c03Std:
-		w.Header().Set("Content-Length", strconv.Itoa(len(wire.body)))
+		w.Header().Set("Content-Length", strconv.Itoa(len(wire.body)+wire.tail))
 		w.WriteHeader(wire.status)
-		w.Write(wire.body)
+		if _, err := w.Write(wire.body); err == nil {
+			c03WriteTail(w, wire.tail)
+		}
 	case c03Chunked:
 		w.WriteHeader(wire.status)
 		fl := w.(http.Flusher)
@@ -412,13 +470,16 @@ func (p *c03Pool) serve(svc int, w http.ResponseWriter, r *http.Request) {
 			fl.Flush()
 			b = b[n:]
 		}
+		c03WriteTail(w, wire.tail)
 	case c03Raw:
 		conn, _, err := w.(http.Hijacker).Hijack()
 		if err != nil {
 			return
 		}
 		if len(wire.head)+len(wire.body) > 0 {
-			conn.Write(append([]byte(wire.head), wire.body...))
+			if _, err := conn.Write(append([]byte(wire.head), wire.body...)); err == nil {
+				c03WriteTail(conn, wire.tail)
+			}
 		}
 		if wire.rst {
 			if tc, ok := conn.(*net.TCPConn); ok {
@@ -497,6 +558,11 @@ var c03BadKinds = []string{"flip", "flip", "short", "short", "long", "declong", 
 var c03ErrKinds = []string{"404", "404", "status", "status", "status", "reset", "reset"}
 var c03Statuses = []int{408, 429, 500, 502, 503}
 
+// c03BigTails: sizes of what is left unread when a reader that stops at the
+// block size calls Close: around io.Copy's 32 KiB buffer, around 1 MiB, and
+// several MiB.
+var c03BigTails = []int{32767, 32768, 32769, 1<<20 - 1, 1 << 20, 1<<20 + 1, 1<<20 + 32768, 2 << 20, 3 << 20}
+
 func c03GenStep(rng *verifkit.Rand, size int, okPct int) c03Step {
 	r := rng.Intn(100)
 	var k string
@@ -507,6 +573,9 @@ func c03GenStep(rng *verifkit.Rand, size int, okPct int) c03Step {
 		k = c03BadKinds[rng.Intn(len(c03BadKinds))]
 	default:
 		k = c03ErrKinds[rng.Intn(len(c03ErrKinds))]
+	}
+	if k != "ok" && k != "chunked-ok" && k != "eof-ok" && rng.Chance(1, 40) {
+		k = "bigtail"
 	}
 	st := c03Step{K: k}
 	pos := func() int { // a byte position biased to the edges
@@ -552,7 +621,9 @@ func c03GenStep(rng *verifkit.Rand, size int, okPct int) c03Step {
 		k := cut()
 		st.P = []int{rng.Intn(3), k, rng.Intn(c03Clamp(size-k+1, 1, 1<<30))}
 	case "long", "chunked-long":
-		st.P = []int{rng.Intn(4), rng.PickInt(1, 1, 2, 17, 4096, 40000), rng.Intn(1 << 20)}
+		st.P = []int{rng.Intn(4), rng.PickInt(1, 1, 2, 17, 4095, 4096, 4097, 32767, 32768, 32769, 40000, 65537), rng.Intn(1 << 20)}
+	case "bigtail":
+		st.P = []int{rng.PickInt(0, 0, 1, 1, 2), rng.PickInt(0, 1, 1, 2), c03BigTails[rng.Intn(len(c03BigTails))], pos()*8 + rng.Intn(8)}
 	case "declong":
 		switch rng.Intn(3) {
 		case 0: // right length declared, body cut in flight
@@ -865,6 +936,32 @@ func c03NewKC(pool *c03Pool, c *c03Case, svcMap []int) (*KeepClient, error) {
 	return kc, nil
 }
 
+// c03CapBuf keeps what a stream delivers up to a little more than the block
+// size and only counts the rest: an answer may be over-long by megabytes.
+type c03CapBuf struct {
+	b     []byte
+	keep  int
+	total int64
+}
+
+func (c *c03CapBuf) Write(p []byte) (int, error) {
+	c.total += int64(len(p))
+	if room := c.keep - len(c.b); room > 0 {
+		if room > len(p) {
+			room = len(p)
+		}
+		c.b = append(c.b, p[:room]...)
+	}
+	return len(p), nil
+}
+
+func (c *c03CapBuf) result(res *c03Res, err error) {
+	res.got, res.err, res.success, res.atEnd = c.b, err, err == nil, true
+	if c.total > int64(len(c.b)) {
+		res.detail = fmt.Sprintf("delivered %d bytes, the block has %d", c.total, len(res.ref))
+	}
+}
+
 func (e *c03Env) doStream(rd c03Reader) (res c03Res) {
 	res = c03Res{reader: rd.Kind, blk: rd.Blk, ref: e.data[rd.Blk]}
 	size := len(res.ref)
@@ -881,9 +978,9 @@ func (e *c03Env) doStream(rd c03Reader) (res c03Res) {
 	}
 	switch rd.Kind {
 	case "get-copy":
-		var buf bytes.Buffer
-		_, err := io.Copy(&buf, rdr)
-		res.got, res.err, res.success, res.atEnd = buf.Bytes(), err, err == nil, true
+		buf := &c03CapBuf{keep: size + 65536}
+		_, err := io.Copy(buf, rdr)
+		buf.result(&res, err)
 		rdr.Close()
 	case "get-writeto":
 		wt, ok := rdr.(io.WriterTo)
@@ -892,17 +989,21 @@ func (e *c03Env) doStream(rd c03Reader) (res c03Res) {
 			res.err = fmt.Errorf("harness: reader has no WriteTo")
 			return
 		}
-		var buf bytes.Buffer
-		_, err := wt.WriteTo(&buf)
-		res.got, res.err, res.success, res.atEnd = buf.Bytes(), err, err == nil, true
+		buf := &c03CapBuf{keep: size + 65536}
+		_, err := wt.WriteTo(buf)
+		buf.result(&res, err)
 		rdr.Close()
 	case "get-readall":
-		b, err := ioutil.ReadAll(rdr)
-		res.got, res.err, res.success, res.atEnd = b, err, err == nil, true
+		// what ioutil.ReadAll does (Read until EOF), without keeping megabytes
+		buf := &c03CapBuf{keep: size + 65536}
+		_, err := io.Copy(buf, struct{ io.Reader }{rdr})
+		buf.result(&res, err)
 		rdr.Close()
 	default: // get-read, get-early
 		limit := -1
-		if rd.Kind == "get-early" {
+		if rd.Kind == "get-early" && rd.Limit != nil {
+			limit = c03Clamp(*rd.Limit, 0, size)
+		} else if rd.Kind == "get-early" {
 			switch rng.Intn(4) {
 			case 0:
 				limit = size // everything, but EOF never seen: the BlockCache pattern
@@ -919,6 +1020,7 @@ func (e *c03Env) doStream(rd c03Reader) (res c03Res) {
 		buf := make([]byte, maxChunk)
 		res.got = make([]byte, 0, size+16)
 		idle := 0
+		over := int64(0)
 		for {
 			if limit >= 0 && len(res.got) >= limit {
 				break
@@ -932,7 +1034,12 @@ func (e *c03Env) doStream(rd c03Reader) (res c03Res) {
 			}
 			p := buf[:n]
 			m, err := rdr.Read(p)
-			res.got = append(res.got, p[:m]...)
+			if room := size + 65536 - len(res.got); room >= m {
+				res.got = append(res.got, p[:m]...)
+			} else {
+				res.got = append(res.got, p[:room]...)
+				over += int64(m - room)
+			}
 			if err == io.EOF {
 				res.success, res.atEnd = true, true
 				break
@@ -949,6 +1056,9 @@ func (e *c03Env) doStream(rd c03Reader) (res c03Res) {
 					break
 				}
 			}
+		}
+		if over > 0 {
+			res.detail = fmt.Sprintf("delivered %d bytes, the block has %d", int64(len(res.got))+over, size)
 		}
 		cerr := rdr.Close()
 		if res.err == nil && !res.atEnd {
@@ -1090,6 +1200,8 @@ func c03SigClass(c string) string {
 		return "same-length-wrong-content"
 	case "short", "long", "clmis", "chunked-short", "chunked-long", "eof-short":
 		return "wrong-length-complete-framing"
+	case "bigtail":
+		return "block-sized-head-then-big-tail"
 	case "declong", "declhuge", "chunked-cut":
 		return "cut-before-declared-end"
 	case "ok", "chunked-ok", "eof-ok":
@@ -1238,7 +1350,7 @@ func c03Execute(run *verifkit.Run, pool *c03Pool, c *c03Case, tally *c03Tally) {
 	var sblk []uint8
 	var mtoks []string
 	for b, bs := range c.Blocks {
-		d := verifkit.NewRand(bs.Seed).Bytes(bs.Size)
+		d := c03BlockData(bs)
 		h := verifkit.MD5Hex(d)
 		e.data = append(e.data, d)
 		e.hashes = append(e.hashes, h)
@@ -1505,6 +1617,91 @@ func c03Execute(run *verifkit.Run, pool *c03Pool, c *c03Case, tally *c03Tally) {
 	run.Feature(fmt.Sprintf("%s|%s|%s|%s", c.Mode, hint, strings.Join(cl, ","), strings.Join(oc, ",")))
 }
 
+// ------------------------------------------------------------------ drain grid
+
+// The readers that stop at the block size (BlockCache.Get: ReadFull then
+// Close; a stream consumer doing the same; a consumer that gives up after a
+// few bytes) leave the verdict on the response to Close, which has to get
+// through whatever is still unread. Stream "drain" enumerates completely:
+// unread remainder (c03DrainTails) × head of the answer (intact | bit flipped
+// in its first byte) × framing without length (chunked | until close) ×
+// reader (cached ReadAt | File.Read | Get+ReadFull(size)+Close |
+// Get+read 16 bytes+Close | Get read to the end).
+var c03DrainReaders = []string{"readat", "file", "stop-at-size", "stop-early", "to-the-end"}
+
+func c03DrainTails(thorough bool) []int {
+	t := append([]int(nil), c03BigTails...)
+	t = append(t, 1, 4096, 65536, 1<<20+65536)
+	if thorough {
+		t = append(t, 4<<20+1, 8<<20, 16<<20)
+	}
+	return t
+}
+
+func c03DrainCount(thorough bool) int {
+	return len(c03DrainTails(thorough)) * 2 * 2 * len(c03DrainReaders)
+}
+
+func c03DrainCase(i int, thorough bool) c03Case {
+	tails := c03DrainTails(thorough)
+	reader := c03DrainReaders[i%len(c03DrainReaders)]
+	i /= len(c03DrainReaders)
+	framing := i % 2
+	i /= 2
+	head := i % 2
+	i /= 2
+	tail := tails[i%len(tails)]
+	size := []int{19000, 1000, 4097, 40000}[(i+framing+2*head)%4]
+	c := c03Case{Mode: "drain", NSvc: 1, Retries: 0, MaxBlocks: 1,
+		Blocks: []c03Block{{Seed: 0xd4a1 + uint64(i)*7919 + uint64(framing)*3 + uint64(head), Size: size, Hint: true}},
+		Files:  []c03FileSpec{{Name: "f0", Segs: [][2]int{{0, size}}}}}
+	var rd c03Reader
+	sixteen, all := 16, size
+	switch reader {
+	case "readat":
+		rd = c03Reader{Kind: "readat", Off: 0, Len: size}
+	case "file":
+		rd = c03Reader{Kind: "file", File: "f0", Ops: []c03FileOp{{Op: "read", N: size}}}
+	case "stop-at-size":
+		rd = c03Reader{Kind: "get-early", Limit: &all, RSeed: uint64(i)}
+	case "stop-early":
+		rd = c03Reader{Kind: "get-early", Limit: &sixteen, RSeed: uint64(i)}
+	default:
+		rd = c03Reader{Kind: "get-read", RSeed: uint64(i)}
+	}
+	st := c03Step{K: "bigtail", P: []int{framing, head, tail, 3}}
+	c.Rounds = []c03Round{{Scripts: [][][]c03Step{{{st}}}, Tail: [][]c03Step{{{K: "404"}}}, Readers: []c03Reader{rd}}}
+	return c
+}
+
+// Stream "bigblock": the same Close path when what is left unread is the
+// legitimate rest of a large block (Content-Length present and equal to the
+// size hint) whose first byte is corrupt, and the consumer gives up early.
+// Remainders: just above / exactly / below 1 MiB, and a few bytes.
+func c03BigBlockCount(thorough bool) int {
+	if thorough {
+		return 16
+	}
+	return 4
+}
+
+func c03BigBlockCase(i int) c03Case {
+	size := 1<<20 + 70000
+	if i >= 8 {
+		size = 5<<19 + 1234 // 2.5 MiB
+	}
+	lim := []int{16, size - (1<<20 + 1), size - (1 << 20), size - 5}[i%4]
+	kind := "flip"
+	if i%8 >= 4 {
+		kind = "chunked-flip"
+	}
+	c := c03Case{Mode: "bigblock", NSvc: 1, Retries: 0, MaxBlocks: 1,
+		Blocks: []c03Block{{Seed: 0xb16b + uint64(i), Size: size, Hint: true, Pattern: true}}}
+	c.Rounds = []c03Round{{Scripts: [][][]c03Step{{{{K: kind, P: []int{5}}}}}, Tail: [][]c03Step{{{K: "404"}}},
+		Readers: []c03Reader{{Kind: "get-early", Limit: &lim, RSeed: uint64(i) + 1}}}}
+	return c
+}
+
 // ------------------------------------------------------------------ oversize probe
 
 // A hint-less locator read through the cache lets the service choose the
@@ -1564,6 +1761,25 @@ func TestVerifC03(t *testing.T) {
 		if i < 1 {
 			run.Sample(&c)
 		}
+	})
+
+	run.Cases("drain", c03DrainCount(run.Thorough()), func(i int, rng *verifkit.Rand) {
+		c := c03DrainCase(i, run.Thorough())
+		run.Input(&c, true)
+		c03Execute(run, pool, &c, &tally)
+		run.Count("drain_grid_cases", 1)
+		if i == 2 {
+			run.Sample(&c)
+		}
+	})
+	if run.BatchK() == 0 && !run.Replaying() {
+		run.Note(fmt.Sprintf("stream drain is exhaustive over %d remainders x 2 heads x 2 framings x %d readers", len(c03DrainTails(run.Thorough())), len(c03DrainReaders)))
+	}
+	run.Cases("bigblock", c03BigBlockCount(run.Thorough()), func(i int, rng *verifkit.Rand) {
+		c := c03BigBlockCase(i)
+		run.Input(&c, true)
+		c03Execute(run, pool, &c, &tally)
+		run.Count("bigblock_cases", 1)
 	})
 
 	// Content-Length beyond the maximum block size, no size hint
